@@ -662,6 +662,39 @@ def ast_constants() -> dict:
                         and any(isinstance(x, ast.Break) for x in n.body):
                     stuck = True
     c["snap"] = {"catch": catch, "stuck": stuck}
+    # BroadcastBootstrapEndpoint.datagram_received: beacon for our overlay -> overlay.walk_to(addr) (is it inside a
+    # try/except Exception?); datagram starting with our prefix -> overlay.on_packet; anything else dropped
+    tree = ast.parse((REPO / "ipv8/bootstrapping/udpbroadcast/bootstrapper.py").read_text())
+    fn = _func(tree, "BroadcastBootstrapEndpoint", "datagram_received")
+    top = [n for n in fn.body if isinstance(n, ast.If)]
+    if len(top) != 1 or ast.unparse(top[0].test) != "data.startswith(HDR_ANNOUNCE)":
+        raise TranslatorError("BroadcastBootstrapEndpoint.datagram_received: `if data.startswith(HDR_ANNOUNCE)` not found")
+    inner = [n for n in top[0].body if isinstance(n, ast.If)]
+    if len(inner) != 1 or ast.unparse(inner[0].test) != "self.overlay.get_prefix() == data[len(HDR_ANNOUNCE):]":
+        raise TranslatorError("BroadcastBootstrapEndpoint.datagram_received: beacon prefix comparison outside the subset")
+    els = top[0].orelse
+    if not (len(els) == 1 and isinstance(els[0], ast.If)
+            and ast.unparse(els[0].test) == "data.startswith(self.overlay.get_prefix())"):
+        raise TranslatorError("BroadcastBootstrapEndpoint.datagram_received: `elif data.startswith(prefix)` not found")
+    c["bcast"] = {"walk_protected": _handler_call_caught(fn, "self.overlay.walk_to", "BroadcastBootstrapEndpoint.datagram_received"),
+                  "on_packet_protected": _handler_call_caught(fn, "self.overlay.on_packet",
+                                                              "BroadcastBootstrapEndpoint.datagram_received")}
+    # exit sockets: the two entry points asyncio calls (address conversion before the shared datagram_received)
+    tree = ast.parse((REPO / "ipv8/messaging/anonymization/exit_socket.py").read_text())
+    c["exit_entry"] = {}
+    for fname, key, ctor in (("datagram_received_ipv4", "v4", "UDPv4Address"), ("datagram_received_ipv6", "v6", "UDPv6Address")):
+        fn = _func(tree, "TunnelExitSocket", fname)
+        calls = [n for n in ast.walk(fn) if isinstance(n, ast.Call) and ast.unparse(n.func) == ctor]
+        if len(calls) != 1 or len(calls[0].args) != 1 or not isinstance(calls[0].args[0], ast.Starred):
+            raise TranslatorError(f"TunnelExitSocket.{fname}: address conversion is not {ctor}(*<expr>)")
+        v = calls[0].args[0].value
+        if isinstance(v, ast.Name) and v.id == "source":
+            c["exit_entry"][key] = None
+        elif isinstance(v, ast.Subscript) and ast.unparse(v.value) == "source" and isinstance(v.slice, ast.Slice) \
+                and v.slice.lower is None and v.slice.step is None:
+            c["exit_entry"][key] = _int(v.slice.upper)
+        else:
+            raise TranslatorError(f"TunnelExitSocket.{fname}: address expression {ast.unparse(v)} outside the subset")
     # exit sockets: DataChecker byte predicates and TunnelExitSocket.datagram_received / is_allowed
     c["exit"] = _exit_constants()
     # Network.get_verified_by_address runs in Community.on_packet before the prefix gate and outside the try:
@@ -675,8 +708,13 @@ def ast_constants() -> dict:
         if isinstance(node, ast.Call) and isinstance(node.func, ast.Attribute) and node.func.attr == "pop" \
                 and ast.unparse(node.func.value).startswith("self.") and len(node.args) + len(node.keywords) < 2:
             raising.append(ast.unparse(node))
-        if isinstance(node, ast.Raise):
-            raising.append("raise")
+        if isinstance(node, (ast.Raise, ast.Assert)):
+            raising.append(type(node).__name__.lower())
+        if isinstance(node, ast.Call) and ast.unparse(node.func) == "next" and len(node.args) < 2:
+            raising.append(ast.unparse(node))
+        if isinstance(node, ast.Subscript) and isinstance(node.ctx, ast.Load) and isinstance(node.value, ast.Name) \
+                and not isinstance(node.slice, ast.Slice):
+            raising.append(ast.unparse(node))       # subscript on a local (possibly an alias of a dict)
     c["lookup"] = {"safe": not raising, "raising": raising}
     # … and Community.on_packet must call it exactly in the shape the model assumes (outside the try)
     tree = ast.parse((REPO / "ipv8/community.py").read_text())
@@ -807,6 +845,11 @@ def translate(t: dict | None = None) -> str:
         f"def ipv8MinLen : Nat := {a['exit']['ipv8_min']}",
         f"def exitAllowedProtected : Bool := {b(a['exit']['allowed_protected'])}",
         f"def exitTunnelProtected : Bool := {b(a['exit']['tunnel_protected'])}",
+        "/-- BroadcastBootstrapEndpoint.datagram_received: is overlay.walk_to(addr) called inside try/except Exception? -/",
+        f"def bcastWalkProtected : Bool := {b(a['bcast']['walk_protected'])}",
+        "/-- TunnelExitSocket.datagram_received_ipv4 / _ipv6: the `[:n]` applied to the transport's address tuple -/",
+        f"def exitV4AddrSlice : Option Nat := {'none' if a['exit_entry']['v4'] is None else 'some ' + str(a['exit_entry']['v4'])}",
+        f"def exitV6AddrSlice : Option Nat := {'none' if a['exit_entry']['v6'] is None else 'some ' + str(a['exit_entry']['v6'])}",
         "/-- Network.get_verified_by_address: every dict access is of the non-raising kind (.get / .pop(k, d) / in) -/",
         f"def lookupDictSafe : Bool := {b(a['lookup']['safe'])}",
         "",
